@@ -206,6 +206,7 @@ CHECKS["C14"] = {
     "package": "sched", "bin": "c14", "flavor": "sched", "replay": "rerun",
     "shards": {"quick": 16, "thorough": 16},
     "extra_parts": [{"package": "seq", "bin": "c14s", "flavor": "seq", "shards": {"quick": 4, "thorough": 16}}],
+    "aux_tsan": {"tiers": ["thorough"], "bins": ["c14s"], "budget_ms": 120000},
     "distinct_from_extra": "distinct_schedules",
     "level": "exploration",
     "technique": "runtime monitoring under controlled scheduling: the real sentinel-core with its std::sync primitives, atomics and lazy statics switched to the shuttle runtime (--cfg sentinel_verif_sched) is run under every schedule with <= k preemptions (CHESS-style enumeration, k = 1..3) and under randomised and PCT(1..3) schedulers; a ledger oracle is evaluated after join in every execution; plus barrier-released real OS-thread stress with the same oracle",
@@ -233,6 +234,7 @@ CHECKS["C16"] = {
     "package": "sched", "bin": "c16", "flavor": "sched", "replay": "rerun",
     "shards": {"quick": 16, "thorough": 16},
     "extra_parts": [{"package": "seq", "bin": "c16s", "flavor": "seq", "shards": {"quick": 8, "thorough": 16}}],
+    "aux_tsan": {"tiers": ["thorough"], "bins": ["c16s"], "budget_ms": 120000},
     "distinct_from_extra": "distinct_schedules",
     "level": "exploration",
     "technique": "runtime monitoring under controlled scheduling (shuttle; sampled random/PCT schedules plus CHESS-style enumeration of every schedule with <= 2 preemptions) and on gated real OS threads: per-thread client-boundary results and the StateChangeListener log of every execution are checked by a trace oracle (path of the state machine, one winner per transition, one admission per Half-Open phase, no admission while Open before the retry time)",
